@@ -96,7 +96,15 @@ func Load(patterns ...string) (*Loader, error) {
 		}
 		cs := &ContractSet{ByKey: map[string]*Contract{}, Funcs: map[string]*Contract{}}
 		files := append([]string{}, p.CompiledGoFiles...)
-		sort.Strings(files) // verif_contracts.go before the later verif_<x>.go files (override/extend refer to earlier files)
+		// the package's main contract file first, then the others in name order (override/extend
+		// refer to contracts declared in earlier files)
+		sort.Slice(files, func(i, j int) bool {
+			mi, mj := filepath.Base(files[i]) == "verif_contracts.go", filepath.Base(files[j]) == "verif_contracts.go"
+			if mi != mj {
+				return mi
+			}
+			return files[i] < files[j]
+		})
 		for _, f := range files {
 			if !strings.HasPrefix(filepath.Base(f), "verif_") {
 				continue
